@@ -331,13 +331,19 @@ def fault_history(prog):
     attempt leaves behind (module caches, shared objects) may change what the observed run returns.
     (Allocation failures are injected only around the compiled quoter -- vlib/allocfault.py: _testcapi.set_nomemory over
     arbitrary Python-level code crashes this interpreter itself, with every extension module disabled.)"""
+    under_recursion_faults(lambda: _quiet(prog))
+
+
+def under_recursion_faults(f, frames=60):
+    """f() with only m = 1..frames stack frames left; whatever it raises or returns is discarded"""
     old = sys.getrecursionlimit()
-    for m in range(1, 61):
+    for m in range(1, frames + 1):
         try:
             sys.setrecursionlimit(_stack_depth() + m + 1)
-            _quiet(prog)
-        except RecursionError:
-            pass
+            f()
+        except BaseException as e:  # noqa: BLE001
+            if isinstance(e, (KeyboardInterrupt, SystemExit)):
+                raise
         finally:
             sys.setrecursionlimit(old)
 
